@@ -10,6 +10,7 @@ import (
 	"io"
 	"os"
 	"reflect"
+	"runtime/debug"
 	"sort"
 	"strconv"
 	"strings"
@@ -129,7 +130,7 @@ func (w *fpWalker) walk(v reflect.Value, depth int) {
 			if shim {
 				// scheduler bookkeeping of the sync shims is not package state: keep the logical fields only
 				switch v.Type().Field(i).Name {
-				case "real", "clock", "waiters", "owner", "running":
+				case "real", "clock", "wclock", "rclock", "waiters", "owner", "running", "mu":
 					continue
 				}
 			}
@@ -260,8 +261,18 @@ type retained struct {
 }
 
 type histRunner struct {
-	m    *ref.Model
-	keep []retained
+	m     *ref.Model
+	keep  []retained
+	reuse []byte // one caller-owned entropy buffer refilled in place by the GR operations
+}
+
+// keepErr retains an error value returned by the library: its text must still be
+// the same when the history is over (a shared, reused error object shows here).
+func (r *histRunner) keepErr(what string, err error) {
+	if err == nil {
+		return
+	}
+	r.keep = append(r.keep, retained{"text of the error returned by " + what, func() []byte { return []byte(err.Error()) }, []byte(err.Error())})
 }
 
 func langName(v int) string {
@@ -315,27 +326,37 @@ func (r *histRunner) exec(op string) (outcome string) {
 	ent24 := bytes.Repeat([]byte{byte(0x21 + 7*ml)}, 32)
 	words := r.m.Words(ent24, ml)
 	valid := strings.Join(words, " ")
+	check := func(sentence string) string {
+		err := bip39.CheckMnemonic(sentence, lg)
+		r.keepErr(op, err)
+		return errString(err)
+	}
 	pn := call(func() {
 		switch kind {
 		case "CV":
-			outcome = errString(bip39.CheckMnemonic(valid, lg))
+			outcome = check(valid)
 		case "IV":
 			outcome = fmt.Sprint(bip39.IsMnemonicValid(valid, lg))
 		case "CB":
 			w := append([]string(nil), words...)
 			w[23] = r.m.List[ml][(r.m.Dict[ml][w[23]]+1)%2048]
-			outcome = errString(bip39.CheckMnemonic(strings.Join(w, " "), lg))
+			outcome = check(strings.Join(w, " "))
 		case "CF":
 			w := append([]string(nil), words...)
 			w[5] = r.m.List[(ml+1)%ref.NLang][1999]
-			outcome = errString(bip39.CheckMnemonic(strings.Join(w, " "), lg))
+			outcome = check(strings.Join(w, " "))
+		case "CG":
+			// another unknown token at another position (a reused error object would describe this one)
+			w := append([]string(nil), words...)
+			w[17] = "zz" + r.m.List[ml][7]
+			outcome = check(strings.Join(w, " "))
 		case "CW":
-			outcome = errString(bip39.CheckMnemonic(strings.Join(words[:13], " "), lg))
+			outcome = check(strings.Join(words[:13], " "))
 		case "CZ":
 			// valid 12-word sentence whose entropy has leading zero bytes
 			e := make([]byte, 16)
 			e[15] = byte(ml + 1)
-			outcome = errString(bip39.CheckMnemonic(strings.Join(r.m.Words(e, ml), " "), lg))
+			outcome = check(strings.Join(r.m.Words(e, ml), " "))
 		case "GE":
 			// the entropy is a window of a larger caller-owned buffer (spare capacity on
 			// both sides): the whole buffer must be intact afterwards
@@ -350,13 +371,28 @@ func (r *histRunner) exec(op string) (outcome string) {
 			// the same string (a valid English sentence) under every language: a verdict memo keyed by
 			// the string alone shows here
 			en := strings.Join(r.m.Words(bytes.Repeat([]byte{0x21 + 7*2}, 32), 2), " ")
-			outcome = errString(bip39.CheckMnemonic(en, lg))
+			outcome = check(en)
 		case "SP":
 			// the same mnemonic with a language-specific passphrase: a seed memo keyed by the mnemonic alone shows here
 			en := strings.Join(r.m.Words(bytes.Repeat([]byte{0x21 + 7*2}, 32), 2), " ")
 			out := bip39.MnemonicToSeed(en, "pw"+langName(v))
 			r.keepBytes("seed returned by "+op, out)
 			outcome = hex.EncodeToString(out)
+		case "SW":
+			// the same call as SD, but the caller wipes the returned slice afterwards (its own memory)
+			out := bip39.MnemonicToSeed(valid, "pw"+langName(v))
+			outcome = hex.EncodeToString(out)
+			for i := range out {
+				out[i] = 0
+			}
+		case "SA", "SB":
+			// two argument pairs whose texts concatenate to the same string (with the salt prefix in
+			// between): a memo keyed by a delimiter-less join confuses them
+			mn, pw := "abandon ability"+"mnemonic", "pw"+langName(v)
+			if kind == "SB" {
+				mn, pw = "abandon ability", "mnemonic"+"pw"+langName(v)
+			}
+			outcome = hex.EncodeToString(bip39.MnemonicToSeed(mn, pw))
 		case "SM":
 			// a language-specific mnemonic with the same passphrase
 			out := bip39.MnemonicToSeed(valid, "pw")
@@ -367,6 +403,20 @@ func (r *histRunner) exec(op string) (outcome string) {
 			e := bytes.Repeat([]byte{0x42}, 16)
 			s, err := bip39.NewMnemonicByEntropy(e, lg)
 			r.keepString("mnemonic returned by "+op, s)
+			outcome = s + "|" + errString(err)
+		case "GR", "GS":
+			// one caller-owned buffer, refilled in place with different contents by GR and GS
+			if r.reuse == nil {
+				r.reuse = make([]byte, 16)
+			}
+			fillb := byte(0x33 + ml)
+			if kind == "GS" {
+				fillb = byte(0xC4 + ml)
+			}
+			for i := range r.reuse {
+				r.reuse[i] = fillb + byte(i)
+			}
+			s, err := bip39.NewMnemonicByEntropy(r.reuse, lg)
 			outcome = s + "|" + errString(err)
 		case "GL":
 			// 32-byte entropy (a different size than GE, for cross-size interference)
@@ -475,6 +525,9 @@ func histMain(args []string) int {
 		fmt.Fprintln(os.Stderr, err)
 		return 2
 	}
+	// GC timing is not an input the harness owns: switch it off for the (short) history so that
+	// GC-sensitive state such as sync.Pool contents survives from one call to the next
+	debug.SetGCPercent(-1)
 	var out histOut
 	out.SourceAtStart, _ = sourceIsDefault()
 	for _, n := range strings.Split(os.Getenv("VERIF_FP_EXCLUDE"), ",") {
